@@ -117,7 +117,22 @@ FRAG_ALPHABET = [0x00, 0x01, 0x07, 0x08, 0x80, 0xff]
 REAL_TEXT_ALPHABET = b'0159.,eE+- naifx_'
 
 
+def _long_real_texts(form):
+    """Long digit strings: mantissas and exponents beyond what a double holds."""
+    for digits in ('1', '9', '12'):
+        for zeros in (17, 40, 308, 309, 400):
+            for tail in ('', '.', '.0', 'E1', 'e-400', 'E400'):
+                body = bytes([form]) + (digits + '0' * zeros + tail).encode()
+                yield bytes([0x09]) + bytes.fromhex(corrupt._enc_len(len(body))) + body
+    for text in ('1E400', '1E-400', '1e9999', '-1E400', '.' + '0' * 330 + '1', '0' * 400, '1' * 400):
+        body = bytes([form]) + text.encode()
+        yield bytes([0x09]) + bytes.fromhex(corrupt._enc_len(len(body))) + body
+
+
 def _real_text_strings(form, first, max_len):
+    if first == 0:
+        for s_ in _long_real_texts(form):
+            yield s_
     for n in range(0, max_len):
         for rest in itertools.product(REAL_TEXT_ALPHABET, repeat=n):
             body = bytes([form, REAL_TEXT_ALPHABET[first]]) + bytes(rest)
